@@ -124,6 +124,10 @@ impl Parse for FmtAttribute {
             args: input.parse_terminated(FmtArgument::parse, token::Comma)?,
         };
         parsed.args.pop_punct();
+        if parsed.args.is_empty() {
+            // `"lit",`: the comma after the literal separates it from nothing.
+            parsed.comma = None;
+        }
         Ok(parsed)
     }
 }
